@@ -80,7 +80,8 @@ work dir included — is byte-identical. Holds along every run, for every fault 
 other processes create new files in between (`Ev.ext`). The statement is anchored at `fs0` only: files that
 appear later (dropped by other processes, created and closed by the tool itself) are covered by the step-wise
 version `Nsq.Props.C19Mono.no_overwrite_stepwise`; a pre-existing file in a *separate work dir* in append mode
-is not covered by the first part (the tool may append to it and move it to the output dir). -/
+is not covered by the first part (the tool may append to it and move it to the output dir): for those see
+`Nsq.Props.C19Mono.files_grow_or_move` (same name or moved work → output, old bytes a prefix). -/
 theorem no_overwrite (c : Cfg) (hwf : c.WF) (io : Nat → Fault) (fs0 : FS) (hdom : DomOk fs0)
     (evs : List (Ev × Bool)) (p : Path) (f0 : File) (hp : fs0.get p = some f0) :
     (p.out = true ∨ c.workDir = false →
